@@ -112,3 +112,168 @@ Example C09_nonvacuous :
   /\ len_obj ex_schema ex_obj = Ok 14
   /\ dump ex_schema ex_obj true = Ok [x0e; x0a; x00; x12; x00; x18; x00; x22; x03; x01; xd8; x04; xf8; x01; x05].
 Proof. vm_compute. repeat split. Qed.
+
+(* ================================================================================================================
+   GAP CLOSING (clause-by-clause table: header of Proofs/C09GapA.v).
+   ================================================================================================================ *)
+From BP Require Import Model.WellFormed Model.C01Def Model.C08Step Model.C09GapDefs Model.C01Reach Model.C01Parse.
+From BP Require Import Spec.Varint Proofs.C09GapA.
+
+(* (3a) the bound 2^64 of C09_dump_delimited_total and the second disjunct of C09_dump_err_inv are not needed:
+        dump_varint accepts every non-negative int, so the length never makes a delimited dump fail *)
+Theorem C09_length_never_rejected : forall (bs : list byte), exists p, encode_varint (Zlength bs) = Ok p.
+Proof. exact (@length_never_rejected byte). Qed.
+Print Assumptions C09_length_never_rejected.
+
+Theorem C09_dump_delimited_always : forall sc o bs, enc_obj sc o = Ok bs ->
+  exists p, encode_varint (Zlength bs) = Ok p /\ dump sc o true = Ok (p ++ bs).
+Proof. exact dump_delimited_always. Qed.
+Print Assumptions C09_dump_delimited_always.
+
+(* dump (either form) raises e EXACTLY when bytes() raises e; it returns exactly when bytes() returns *)
+Theorem C09_dump_err_iff : forall sc o d e, dump sc o d = Err e <-> enc_obj sc o = Err e.
+Proof. exact dump_err_iff. Qed.
+Print Assumptions C09_dump_err_iff.
+
+Theorem C09_dump_ok_iff : forall sc o d, (exists out, dump sc o d = Ok out) <-> (exists bs, enc_obj sc o = Ok bs).
+Proof. exact dump_ok_iff. Qed.
+Print Assumptions C09_dump_ok_iff.
+
+(* (3b) "the varint encoding of that length": the prefix is THE canonical varint of the specification (Spec/Varint.v),
+        at most 10 bytes, and no other byte string is a canonical varint of that length *)
+Theorem C09_dump_delimited_spec : forall sc o bs, enc_obj sc o = Ok bs -> Zlength bs < 2 ^ 64 ->
+  exists p, canonical (Zlength bs) p /\ (length p <= 10)%nat /\ dump sc o true = Ok (p ++ bs) /\
+            (forall q, canonical (Zlength bs) q -> q = p).
+Proof. exact dump_delimited_spec. Qed.
+Print Assumptions C09_dump_delimited_spec.
+
+(* (3c) "exactly": what a delimited dump wrote determines bytes(m) - across schemas and objects *)
+Theorem C09_frame_determines_bytes : forall sc o sc' o' out, Zlength out < 2 ^ 64 ->
+  dump sc o true = Ok out -> dump sc' o' true = Ok out -> enc_obj sc o = enc_obj sc' o'.
+Proof. exact frame_determines_bytes. Qed.
+Print Assumptions C09_frame_determines_bytes.
+
+(* the frame is at least one byte longer than bytes(m), and len(m) is its size minus the prefix *)
+Theorem C09_frame_size_exact : forall sc o out, dump sc o true = Ok out ->
+  exists bs p, enc_obj sc o = Ok bs /\ encode_varint (Zlength bs) = Ok p /\
+               Zlength out = Zlength p + Zlength bs /\ 1 <= Zlength p /\ len_obj sc o = Ok (Zlength out - Zlength p).
+Proof. exact frame_size_exact. Qed.
+Print Assumptions C09_frame_size_exact.
+
+(* (4) SerializeToString is bytes() and the plain dump *)
+Theorem C09_serialize : forall sc o,
+  serialize_to_string sc o = enc_obj sc o /\ serialize_to_string sc o = dump sc o false.
+Proof. exact serialize_agrees. Qed.
+Print Assumptions C09_serialize.
+
+Theorem C09_serialize_len : forall sc o bs, serialize_to_string sc o = Ok bs -> len_obj sc o = Ok (Zlength bs).
+Proof. exact serialize_len. Qed.
+Print Assumptions C09_serialize_len.
+
+(* (1a) on the values of the quantifier ("as in C01") everything RETURNS and is related as the text says *)
+Theorem C09_value_ok_total : forall sc m, c01_schema_ok sc = true -> c01_value_ok sc m = true ->
+  exists bs p, enc_obj sc m = Ok bs /\ len_obj sc m = Ok (Zlength bs) /\ serialize_to_string sc m = Ok bs /\
+    dump sc m false = Ok bs /\ encode_varint (Zlength bs) = Ok p /\ dump sc m true = Ok (p ++ bs).
+Proof. exact value_ok_total. Qed.
+Print Assumptions C09_value_ok_total.
+
+(* ... and so for every object a history of public-API operations produces (C01_reachable_value_ok_parse) *)
+Theorem C09_reachable_total : forall sc c ops m,
+  c01_schema_ok sc = true -> hist_ok op_value_ok_p sc (new sc c) ops = true ->
+  C07Ops.run7 sc (new sc c) ops = Ok m ->
+  exists bs p, enc_obj sc m = Ok bs /\ len_obj sc m = Ok (Zlength bs) /\ serialize_to_string sc m = Ok bs /\
+    dump sc m false = Ok bs /\ encode_varint (Zlength bs) = Ok p /\ dump sc m true = Ok (p ++ bs).
+Proof. exact reachable_total. Qed.
+Print Assumptions C09_reachable_total.
+
+(* (6) "including messages carrying unknown fields": c01_value_ok excludes them, so: a C01 value with ANY unknown bytes *)
+Theorem C09_value_ok_unknown_total : forall sc m, c01_schema_ok sc = true -> c01_value_ok sc (clear_unk m) = true ->
+  exists body p, enc_obj sc (clear_unk m) = Ok body /\
+    enc_obj sc m = Ok (body ++ ounk m) /\
+    len_obj sc m = Ok (Zlength body + Zlength (ounk m)) /\
+    dump sc m false = Ok (body ++ ounk m) /\
+    encode_varint (Zlength body + Zlength (ounk m)) = Ok p /\
+    dump sc m true = Ok (p ++ body ++ ounk m).
+Proof. exact value_ok_unknown_total. Qed.
+Print Assumptions C09_value_ok_unknown_total.
+
+(* (7) composition with the C01 round trip: the decoded message has the same len and the same delimited frame *)
+Theorem C09_len_roundtrip : forall sc m, c01_schema_ok sc = true -> c01_value_ok sc m = true ->
+  len_obj sc (norm_obj sc m) = len_obj sc m /\
+  forall bs, enc_obj sc m = Ok bs -> Zlength bs < 2 ^ 64 ->
+    exists m', parse sc (ocls m) bs = Ok m' /\ len_obj sc m' = Ok (Zlength bs) /\ dump sc m' true = dump sc m true.
+Proof. exact len_roundtrip. Qed.
+Print Assumptions C09_len_roundtrip.
+
+(* ---- non-vacuity of the new hypotheses ---- *)
+Example C09_gap_nonvacuous :
+  c01_schema_ok ex_schema = true /\ c01_value_ok ex_schema (clear_unk ex_obj) = true /\
+  c01_value_ok ex_schema ex_obj = false /\ ounk ex_obj = [xf8; x01; x05] /\
+  dump ex_schema (clear_unk ex_obj) true = Ok [x0b; x0a; x00; x12; x00; x18; x00; x22; x03; x01; xd8; x04] /\
+  serialize_to_string ex_schema ex_obj = enc_obj ex_schema ex_obj.
+Proof. vm_compute. repeat split. Qed.
+
+Definition exg_hist9 : list C07Ops.op7 :=
+  [C07Ops.OConstruct [(3%nat, PList [PInt (-1); PInt 300])];
+   C07Ops.OBase (History.OSet [] 0 (PStr [])); C07Ops.OBase (History.OSet [] 2 (PInt 0))].
+Example C09_reachable_nonvacuous :
+  hist_ok op_value_ok_p ex_schema (new ex_schema 11) exg_hist9 = true /\
+  match C07Ops.run7 ex_schema (new ex_schema 11) exg_hist9 with
+  | Ok m => enc_obj ex_schema m = Ok [x0a; x00; x18; x00; x22; x03; x01; xd8; x04] /\ len_obj ex_schema m = Ok 9
+  | Err _ => False
+  end.
+Proof. vm_compute. repeat split. Qed.
+
+(* ---- (1b) ILL-TYPED VALUES: the exact decidable condition under which the model's TypeError / AttributeError arms
+        are unreachable (Proofs/C09GapB.v).  [leaf_typed t v]: v has the Python type the arm of _preprocess_single for
+        proto type t operates on (int / bool for the varint types, str for string, bytes for bytes; the struct.pack and
+        message arms raise no typing error of their own in the model).  [msg_type_safe msg]: bytes(value) of the
+        TYPE_MESSAGE arm raises no typing error. ---- *)
+From BP Require Import Proofs.C09GapB.
+
+(* exactness at the level of one value, both walks: a typing error comes out IFF the value is not leaf_typed *)
+Theorem C09_preprocess_type_err_iff : forall msg t w v, msg_type_safe msg ->
+  ((exists e, type_err e = true /\ preprocess_with msg t w v = Err e) <-> leaf_typed t v = false) /\
+  ((exists e, type_err e = true /\ len_preprocessed_with msg t w v = Err e) <-> leaf_typed t v = false).
+Proof. exact preprocess_type_err_iff. Qed.
+Print Assumptions C09_preprocess_type_err_iff.
+
+(* the same for _serialize_single / _len_single: key and length prefix add no typing error *)
+Theorem C09_single_type_err_iff : forall msg num t v se w, msg_type_safe msg ->
+  ((exists e, type_err e = true /\ serialize_with msg num t v se w = Err e) <-> leaf_typed t v = false) /\
+  ((exists e, type_err e = true /\ len_single_with msg num t v se w = Err e) <-> leaf_typed t v = false).
+Proof. exact single_type_err_iff. Qed.
+Print Assumptions C09_single_type_err_iff.
+
+(* an ill-typed value makes BOTH model walks raise the same typing error, with no hypothesis on msg: this is exactly the
+   set of inputs on which the model's two walks agree while the code's do not (header of this file) *)
+Theorem C09_single_untyped_raises : forall msg num t v se w, leaf_typed t v = false ->
+  exists e, type_err e = true /\ serialize_with msg num t v se w = Err e /\ len_single_with msg num t v se w = Err e.
+Proof. exact single_untyped_raises. Qed.
+Print Assumptions C09_single_untyped_raises.
+
+(* the two inputs of the header, in the model: a float in an int32 field, a str in a bytes field (the CODE returns
+   len = 11 / len = 5 there while bytes raises: outside the quantifier, not a theorem about the code) *)
+Definition ex_ill_schema : schema :=
+  mkS (builtin_classes ++
+       [mkC [mkF [x61] 1 TInt32 None None None false (HPlain PyInt) 0;
+             mkF [x62] 2 TBytes None None None false (HPlain PyBytes) 0] 0]) [].
+Theorem C09_ill_typed_model_raises :
+  exists sc o o', enc_obj sc o = Err EType /\ len_obj sc o = Err EType /\
+                  enc_obj sc o' = Err EType /\ len_obj sc o' = Err EType.
+Proof.
+  exists ex_ill_schema, (Obj 11 [PFloat 13826050856027422720; PPlaceholder] false [] []),
+         (Obj 11 [PPlaceholder; PStr [x61; x62; x63]] false [] []).
+  vm_compute. repeat split.
+Qed.
+Print Assumptions C09_ill_typed_model_raises.
+
+Example C09_typed_nonvacuous :
+  leaf_typed TInt32 (PInt (-1)) = true /\ leaf_typed TInt32 (PBool true) = true /\ leaf_typed TInt32 (PFloat 0) = false /\
+  leaf_typed TBytes (PStr [x61]) = false /\ leaf_typed TString (PStr [x61]) = true /\ leaf_typed TString (PBytes []) = false /\
+  leaf_typed TSInt64 (PInt (2 ^ 80)) = true /\
+  (* out of range but well typed: ValueError-free here, struct.error for fixed widths - not a typing error *)
+  serialize_with no_msg 1 TFixed32 (PInt (-1)) false None = Err EStruct /\ type_err EStruct = false /\
+  (* a nested-message interpretation that raises no typing error *)
+  msg_type_safe (fun _ _ => Ok []).
+Proof. repeat split; try (vm_compute; reflexivity). intros w v e H. discriminate. Qed.
